@@ -55,6 +55,21 @@ const (
 	matchResultOptionalNoData                    // statement has no data and is optional
 )
 
+// strength orders the match results: false < no data < optional no data < true.
+// An and/all statement is as weak as its weakest operand, an or/any statement as strong as its strongest one.
+func strength(r matchResult) int {
+	switch r {
+	case matchResultFalse:
+		return 0
+	case matchResultNoData:
+		return 1
+	case matchResultOptionalNoData:
+		return 2
+	default:
+		return 3
+	}
+}
+
 // matchStatement evaluate the policy against the given ipld.Node and returns:
 // - matchResultTrue: if the selector matched and the statement evaluated to true.
 // - matchResultFalse: if the selector matched and the statement evaluated to false.
@@ -140,36 +155,36 @@ func matchStatement(cur Statement, node ipld.Node) (_ matchResult, leafMost Stat
 		}
 	case KindAnd:
 		if s, ok := cur.(connective); ok {
+			// the weakest operand decides, whatever the order of the operands
+			result, resultLeaf := matchResultTrue, Statement(nil)
 			for _, cs := range s.statements {
 				res, leaf := matchStatement(cs, node)
-				switch res {
-				case matchResultNoData, matchResultOptionalNoData:
-					return res, leaf
-				case matchResultTrue:
-					// continue
-				case matchResultFalse:
+				if res == matchResultFalse {
 					return matchResultFalse, leaf
 				}
+				if strength(res) < strength(result) {
+					result, resultLeaf = res, leaf
+				}
 			}
-			return matchResultTrue, nil
+			return result, resultLeaf
 		}
 	case KindOr:
 		if s, ok := cur.(connective); ok {
 			if len(s.statements) == 0 {
 				return matchResultTrue, nil
 			}
+			// the strongest operand decides, whatever the order of the operands
+			result, resultLeaf := matchResultFalse, cur
 			for _, cs := range s.statements {
 				res, leaf := matchStatement(cs, node)
-				switch res {
-				case matchResultNoData, matchResultOptionalNoData:
-					return res, leaf
-				case matchResultTrue:
+				if res == matchResultTrue {
 					return matchResultTrue, leaf
-				case matchResultFalse:
-					// continue
+				}
+				if strength(res) > strength(result) {
+					result, resultLeaf = res, leaf
 				}
 			}
-			return matchResultFalse, cur
+			return result, resultLeaf
 		}
 	case KindLike:
 		if s, ok := cur.(wildcard); ok {
@@ -199,22 +214,22 @@ func matchStatement(cur Statement, node ipld.Node) (_ matchResult, leafMost Stat
 			if it == nil {
 				return matchResultFalse, cur // not a list
 			}
+			// the weakest element decides, whatever the order of the elements
+			result, resultLeaf := matchResultTrue, Statement(nil)
 			for !it.Done() {
 				_, v, err := it.Next()
 				if err != nil {
 					panic("should never happen")
 				}
 				matchRes, leaf := matchStatement(s.statement, v)
-				switch matchRes {
-				case matchResultNoData, matchResultOptionalNoData:
-					return matchRes, leaf
-				case matchResultTrue:
-					// continue
-				case matchResultFalse:
+				if matchRes == matchResultFalse {
 					return matchResultFalse, leaf
 				}
+				if strength(matchRes) < strength(result) {
+					result, resultLeaf = matchRes, leaf
+				}
 			}
-			return matchResultTrue, nil
+			return result, resultLeaf
 		}
 	case KindAny:
 		if s, ok := cur.(quantifier); ok {
@@ -229,22 +244,22 @@ func matchStatement(cur Statement, node ipld.Node) (_ matchResult, leafMost Stat
 			if it == nil {
 				return matchResultFalse, cur // not a list
 			}
+			// the strongest element decides, whatever the order of the elements
+			result, resultLeaf := matchResultFalse, cur
 			for !it.Done() {
 				_, v, err := it.Next()
 				if err != nil {
 					panic("should never happen")
 				}
 				matchRes, leaf := matchStatement(s.statement, v)
-				switch matchRes {
-				case matchResultNoData, matchResultOptionalNoData:
-					return matchRes, leaf
-				case matchResultTrue:
+				if matchRes == matchResultTrue {
 					return matchResultTrue, nil
-				case matchResultFalse:
-					// continue
+				}
+				if strength(matchRes) > strength(result) {
+					result, resultLeaf = matchRes, leaf
 				}
 			}
-			return matchResultFalse, cur
+			return result, resultLeaf
 		}
 	}
 	panic(fmt.Errorf("unimplemented statement kind: %s", cur.Kind()))
